@@ -7,9 +7,19 @@ CVC5_TIMEOUT_S = int(os.environ.get('TTVC_CVC5_S', '60'))
 SEED = int(os.environ.get('TTVC_Z3_SEED', '0') or 0)      # proof-stability testing (tools/stability.py)
 
 
+def _load_factor():
+    """Solver time limits are wall-clock limits; when the machine is oversubscribed (several checks started at once) a proof that needs
+    2 s of CPU may need 10 s of wall time.  The limits are stretched by the 1-minute load average per core (between 1x and 4x) so that
+    a verdict does not flip to `timeout` merely because twenty checks run side by side."""
+    try:
+        return min(4.0, max(1.0, os.getloadavg()[0] / max(1, os.cpu_count() or 1)))
+    except OSError:
+        return 1.0
+
+
 def _solver(mode, timeout_ms):
     s = z3.Solver()
-    s.set('timeout', timeout_ms)
+    s.set('timeout', int(timeout_ms * _load_factor()))
     if SEED:
         s.set('random_seed', SEED)
     if mode == 'ematch':
